@@ -35,7 +35,11 @@ def apply_action_mask_discrete(
     :return: Logits with mask applied.
     :rtype: torch.Tensor
     """
-    return torch.where(mask, logits, torch.full_like(logits, -1e8).to(logits.device))
+    return torch.where(
+        mask,
+        logits,
+        torch.full_like(logits, torch.finfo(logits.dtype).min).to(logits.device),
+    )
 
 
 class DistributionHandler(Protocol):
